@@ -846,7 +846,7 @@ func main() {
 	seed := vh.SeedFromEnv()
 	h := &H{r: vh.NewRng(seed)}
 	h.sum = vh.NewSummary("enc: random item trees (boundary ints/lengths 15/16/31/32/255/256/65535/65536, floats incl. NaN/subnormal, times around 2^32/2^34/zero) x 16 encoder option vectors, real Encoder bytes vs model enc and vs reference decoder; ref: reference encoder choosing among all spec-permitted forms -> real Decode(&interface{}) and nextValueBytes; mut: one or two mutations of valid encodings; rand: descriptor-biased random bytes; first: all 256 first bytes x 6 tails; nest: nesting 1..1500; deep: 2M nested containers in a subprocess with a 64 MB stack. distinct = (stream, first-byte class, outcome class, option vector, length bucket)")
-	h.cv = vh.NewCases(*cases, "From Coq Require Import List NArith ZArith.\nFrom Verif Require Import Base.Outcome Wire.Item Wire.Msgpack Wire.MsgpackCorr.\nImport ListNotations.", "case", "mismatches", 60)
+	h.cv = vh.NewCases(*cases, "From Coq Require Import List NArith ZArith.\nFrom Verif Require Import Base.Outcome Wire.Item Wire.Msgpack Wire.MsgpackCorr.\nImport ListNotations.", "case", "mismatches", 150)
 	h.encStream(*nEnc)
 	valid := h.refStream(*nRef)
 	h.mutStream(*nMut, valid)
